@@ -29,6 +29,7 @@ import (
 
 type pend struct {
 	raw   string
+	buf   []byte // the caller's slice: what a slow consumer reads while the Write is still in progress
 	line  string
 	ev    gen.Event
 	isEv  bool
@@ -71,7 +72,7 @@ func (g *gate) add(p *pend) {
 
 func (g *gate) Write(b []byte) (int, error) {
 	line := strings.TrimSuffix(string(b), "\n")
-	p := &pend{raw: string(b), line: line, ch: make(chan struct{})}
+	p := &pend{raw: string(b), buf: b, line: line, ch: make(chan struct{})}
 	p.ev, p.isEv = gen.ParseEvent(line)
 	g.add(p)
 	return len(b), nil
